@@ -202,6 +202,15 @@ class CallMixin(object):
       return out
     if cls.is_attrs or any(c.is_attrs for c in cls.mro()):
       return self.attrs_init(st, cls, obj, pos, kwargs)
+    nt = [c.namedtuple_fields for c in cls.mro() if c.namedtuple_fields]
+    if nt:
+      fields = nt[0]
+      vals = list(pos) + [kwargs[f] for f in fields[len(pos):] if f in kwargs]
+      if len(vals) != len(fields):
+        return [(st, self.raise_builtin(st, 'TypeError', 'namedtuple arity'))]
+      for f, v in zip(fields, vals):
+        self.write_field(st, obj, f, v)
+      return [(st, obj)]
     if cls.is_exception():
       st.pyheap[(self.oid_of(obj), 'args')] = VTuple(pos)
       return [(st, obj)]
